@@ -153,6 +153,23 @@ def run(ctx):
                 [{x: c[x] for x in ("k", "half", "loop", "act", "fits", "wrap", "doomed")} for c in cs], o["pick"], o["outcome"], o["starts"]),
                 {"cs": cs, "pick": o["pick"], "observed": {"outcome": o["outcome"], "starts": o["starts"]}, "source": res[k][2],
                  "sig": {"n": len(cs), "loops": sorted(set(c["loop"] for c in cs)), "same_action": len(set(c["act"] for c in cs)) < len(cs)}})
+    # ColangSM: every conflict resolution of every call over all bounded histories satisfies C05S (winner not beaten on the
+    # padded score chains, identical events co-win, every other competitor is stopped or sent to its failure handler, one
+    # group per loop), every reachable state replayed into the real interpreter
+    from harness import colangsm
+    csm = colangsm.explore(ctx, 30 if ctx.quick else 300, 3 if ctx.quick else 4, 1 if ctx.quick else 2, seed_offset=1700, maxtick=0)
+    if csm["errors"]:
+        raise RuntimeError("ColangSM: TLC failed on %d programs: %s" % (len(csm["errors"]), csm["errors"][0]))
+    ctx.drift += csm["drift"]
+    for d in csm["drift_samples"][:3]:
+        print("DRIFT C05 ColangSM vs interpreter: %s" % json.dumps(d, default=str)[:1500])
+    c05viol = [v for v in csm["spec_violations"] if colangsm.SERVES.get(v["invariant"]) == "C05"]
+    for sv in c05viol:
+        ctx.note("ColangSM design-level counterexample to %s (program follows)\n%s\n%s" % (sv["invariant"], sv["program"], sv["counterexample"][:1500]))
+    ctx.log("ColangSM: %d programs, %d spec states / %d transitions (C05S: %d counterexamples), %d states replayed, drift %d" % (
+        csm["programs"], csm["states"], csm["transitions"], len(c05viol), csm["compared"], csm["drift"]))
+    states += csm["states"]
+    trans += csm["transitions"]
     nontrivial = sum(1 for cs in scripts if sum(1 for c in cs if c["fits"]) >= 2)
     samples = [{"competitors": scripts[k], "pick": o["pick"], "outcome": o["outcome"], "starts": o["starts"]}
                for (k, o) in idx[:: max(1, len(idx) // 4)]][:4]
@@ -164,6 +181,8 @@ def run(ctx):
                 "and a seeded partition of the families of 3 (thorough: + 4) flows, started or activated from main, one triggering event, every scripted "
                 "tie-break pick; non-trivial = at least two flows whose match fits",
         "samples": samples, "exhaustive": False, "runs_with_real_tie": tie_runs,
+        "colangsm": {"programs": csm["programs"], "states": csm["states"], "transitions": csm["transitions"], "states_replayed": csm["compared"], "drift": csm["drift"],
+                     "design_properties": ["C05S"], "violated": sorted(set(v["invariant"] for v in c05viol))},
     }, "assumptions": [
         "specificity is varied through the number of unmentioned parameters of one event with three parameters; scores are single-element vectors",
         "which of several exactly tied heads wins is left open by the judge (any tied head); identical action = same action name and arguments",
